@@ -26,7 +26,7 @@ def build_case(cid, rng, selector, unimock=False, force_async=False, no_send=Fal
     dyn = selector in ("ref", "Borrow")
     want_async = force_async or rng.random() < 0.5
     with_at = dyn and want_async
-    t = tg.random_trait(rng, "Tr", dyn_safe=dyn, allow_async=(want_async or not dyn), with_async_trait=with_at, uninferable=True)
+    t = tg.random_trait(rng, "Tr", dyn_safe=dyn, allow_async=(want_async or not dyn), with_async_trait=with_at, uninferable=True, allow_ghost=True)
     if not want_async:
         for m in t.methods:
             m.is_async = False
